@@ -119,8 +119,11 @@ MANIFEST_TEXT = {
                     "in fsrun.py). Known finding: seek beyond EOF clamps to the size.",
             "technique": "Lean 4 proof (read/seek refinement to a byte buffer) + differential call sequences"},
     "C03": {"text": "Theorems: parse(serialise(FAT)) = FAT for FAT12 (every length)/16/32 incl. reserved bits; scan(serialise(directory)) = directory incl. long names, "
-                    "whatever follows the end mark. Whether each operation issues the writes is decided by remounting a device copy after every call on the real code.",
-            "note": _NOTE, "technique": "Lean 4 proof of the representation round trips + remount-after-every-call oracle"},
+                    "whatever follows the end mark. Theorem c03_fs_synced: in the filesystem-level model Model.Fs (device = second copy changed only by flush_fat / "
+                    "update_directory_entry) memory and device agree after every call of every history, however the call ended; the model's device state is "
+                    "compared with an independent reader's view of the real device after every call (suite fsmodel). Names/contents/compound helpers: "
+                    "remounting a device copy after every call on the real code.",
+            "note": _NOTE, "technique": "Lean 4 proof (representation round trips; memory = device invariant of the filesystem model over all histories) + lock-step correspondence + remount-after-every-call oracle"},
     "C04": {"text": "Theorem c04_reachable: every reachable state of the FAT machine (allocate/extend/release/truncate = the four ways the code changes its FAT, "
                     "failed steps included) represents pairwise disjoint, well-formed, in-range chains and nothing else; follower reads back the chain; reserved "
                     "entries untouched; flush/parse identity. Theorem c04_fs_reachable: every reachable state of the filesystem-level model Model.Fs (all histories of "
